@@ -265,6 +265,19 @@ class Run:
         )
         self.workload = self.workload_loader.workload
 
+    def _priv(self, obj, name, default):
+        """Read a private attribute the model is fed with; if the implementation no longer has it the run still
+        goes on (the oracles judge it) but the case is marked: the correspondence cannot be checked for it."""
+        try:
+            return getattr(obj, name)
+        except AttributeError:
+            if not hasattr(self, "unobservable"):
+                self.unobservable = []
+            tag = f"{type(obj).__module__}.{type(obj).__qualname__}.{name}"
+            if tag not in self.unobservable:
+                self.unobservable.append(tag)
+            return default
+
     # -- labels ---------------------------------------------------------------
     def graphs_now(self):
         return list(self.sim._workload.task_graphs.values()) if self.sim._workload.task_graphs else list(self.workload.task_graphs.values())
@@ -371,8 +384,8 @@ class Run:
                 {
                     "name": name,
                     "closed_loop": closed,
-                    "remaining": int(min(jg._remaining_task_graphs, 10**9)),
-                    "index": int(max(jg._task_graph_index, 0)),
+                    "remaining": int(min(self._priv(jg, "_remaining_task_graphs", 0), 10**9)),
+                    "index": int(max(self._priv(jg, "_task_graph_index", 0), 0)),
                     "critical": us(tg0.critical_path_runtime),
                     "template": graph_json(tg0, pristine=True),
                 }
@@ -649,6 +662,8 @@ class Run:
             self.remove_patches()
         raw = _CSV.rows[n0 - 0 :] if False else list(_CSV.rows)
         rows = self.canon_rows(raw)
+        if getattr(self, "unobservable", None):
+            case["unobservable"] = list(self.unobservable)
         case["decisions"] = self.decisions
         case["tape"] = self.tape
         case["fuel"] = self.world.get("max_steps", 4000) + 50
